@@ -3,17 +3,18 @@
 ID=$1; id=$(echo $ID | tr A-Z a-z)
 if [ -n "$(git -C /repo log --oneline main..$id)" ]; then git -C /repo cherry-pick main..$id || { echo REPO CHERRY-PICK CONFLICT; exit 1; }; fi
 cd /verif
+git add -A; git commit -qm "pending changes before merging $ID" 2>/dev/null
 git merge --no-edit $id || {
   # generated files conflict harmlessly
   git rm -q --cached lean/Main.lean 2>/dev/null
-  for f in $(git diff --name-only --diff-filter=U | grep '^evidence/'); do git checkout --ours $f; git add $f; done
+  for f in $(git diff --name-only --diff-filter=U | grep '^evidence/\|^harness/go.mod'); do git checkout --ours $f; git add $f; done
   if git status --short | grep -q '^\(UU\|AA\|DU\|UD\) '; then git status --short | grep '^\(UU\|AA\|DU\|UD\) '; echo MERGE CONFLICT; exit 1; fi
   git commit -qm "merge $ID"
 }
 git rm -q --cached lean/Main.lean 2>/dev/null && git commit -qm "untrack Main.lean"
 git worktree remove --force /work/$ID/verif
 git -C /repo worktree remove --force /work/$ID/repo
-git branch -D $id; git -C /repo branch -D $id
+git branch -d $id || { echo "BRANCH $id NOT MERGED - kept"; exit 1; }; git -C /repo branch -D $id
 rm -rf /work/$ID
 (cd harness && GOFLAGS=-mod=mod go mod edit -replace github.com/sarchlab/mgpusim/v4=/repo)
 python3 gen_main.py
